@@ -5,6 +5,7 @@ import (
 	"fmt"
 	"os"
 	"path/filepath"
+	"sort"
 	"strconv"
 	"strings"
 )
@@ -190,7 +191,15 @@ func FindSequences(dataDir, dbName string) ([]SequenceData, error) {
 	tables := ParsePGClass(classData)
 	var sequences []SequenceData
 
-	for filenode, info := range tables {
+	// visit the relations in filenode order: map iteration order is random, the listing must not be
+	filenodes := make([]uint32, 0, len(tables))
+	for filenode := range tables {
+		filenodes = append(filenodes, filenode)
+	}
+	sort.Slice(filenodes, func(i, j int) bool { return filenodes[i] < filenodes[j] })
+
+	for _, filenode := range filenodes {
+		info := tables[filenode]
 		// Check if it's a sequence (relkind = 'S')
 		if info.Kind != "S" {
 			continue
